@@ -115,3 +115,17 @@ Proof.
   - vm_compute. discriminate.
 Qed.
 (* ... and it is when the ids are stored in ascending order *)
+
+(* an id -> index dictionary built from one storage order is not the position in
+   another order of the same ids (resolve_degeneracy re-sorts the element table by
+   id after FEMData.__init__ built dict_element_id2index) *)
+Theorem stale_id_index_refuted :
+  exists (old new : list Z) (e : Z),
+    NoDup old /\ Permutation old new /\ In e new /\ index_of e old <> index_of e new.
+Proof.
+  exists [30%Z; 10%Z; 20%Z], [10%Z; 20%Z; 30%Z], 10%Z. repeat split.
+  - repeat constructor; simpl; intuition discriminate.
+  - apply perm_trans with (l' := [10%Z; 30%Z; 20%Z]); [apply perm_swap | apply perm_skip, perm_swap].
+  - now left.
+  - vm_compute. discriminate.
+Qed.
